@@ -523,6 +523,21 @@ var (
 
 func SetStepBudget(n int64) { Steps, stepBudget, Aborted = 0, n, false }
 
+// SyncMark counts a synchronisation operation without being a yield point (entry of a
+// callback-shaped method: see the instrumenter).
+func SyncMark(site int) {
+	if !Active {
+		return
+	}
+	if rs := rInSim(); rs != nil {
+		rs.syncMark()
+		return
+	}
+	if s := sched; s != nil && s.cur != nil {
+		s.cur.SyncOps++
+	}
+}
+
 // SyncOp marks a synchronisation operation the simulator does not model in detail
 // (sync/atomic, sync.Pool, sync.Map): it is a yield point and counts as synchronisation.
 func SyncOp(site int) {
